@@ -602,7 +602,7 @@ def gen_graph(rng, max_nodes, max_depth):
         nodes.append(nd)
         hashable.append(need_hash)
         child_hash = need_hash or kind in ("set", "frozenset")
-        width = rng.choice([0, 1, 2, 2, 3, 3, 4]) if depth > 0 else rng.choice([1, 2, 3, 4, 5, 6])
+        width = rng.choice([0, 1, 2, 2, 3, 3, 4]) if depth > 0 else rng.choice([0, 1, 2, 2, 3, 3, 4, 5, 6, 12])
         keys = set()
         anc2 = anc + [(idx, kind)]
         for _ in range(width):
